@@ -11,9 +11,10 @@ use crate::Outcome;
 use glass_easel_template_compiler::TmplGroup;
 
 const BASES: &[&str] = &["a", "d/a", "d/e/a"];
-const IMPORTS: &[&str] = &["b", "./b", "../b", "/b", "b.wxml", "b.wxml.wxml", "c", "../c/b", "./d/../c", "/d/b", "c//b"];
-const SCRIPTS: &[&str] = &["s", "s.wxs", "s.wxs.wxs", "../s", "/lib/s.wxs"];
-const BOUND: &str = "3 referring paths x all sequences of <= 3 imports from 11 spellings x (no include | 3 includes) x (no script | 5 script spellings)";
+const IMPORTS: &[&str] = &["b", "./b", "../b", "/b", "b.wxml", "b.wxml.wxml", "c", "../c/b", "./d/../c", "/d/b", "c//b", "/d/../b", "/./b.wxml"];
+const INCLUDES: &[&str] = &["b.wxml", "../i", "i.wxml.wxml", "/i", "/d/../i", "/./i.wxml", "./x/../i", "../c/./i"];
+const SCRIPTS: &[&str] = &["s", "s.wxs", "s.wxs.wxs", "../s", "/lib/s.wxs", "/lib/../s", "/./s.wxs", "./x/../s"];
+const BOUND: &str = "3 referring paths x all sequences of <= 3 imports from 13 spellings (relative, ./, ../, absolute, absolute with . and .. segments, suffixes) x (no include | 8 include spellings) x (no script | 8 script spellings)";
 
 /// reference resolver, written from the property text (same function the PATH unit proves path::resolve equal to)
 fn ref_resolve(base: &str, rel: &str) -> String {
@@ -93,7 +94,7 @@ pub fn search() -> Outcome {
             let mut idx = vec![0usize; d];
             loop {
                 let imports: Vec<&str> = idx.iter().map(|i| IMPORTS[*i]).collect();
-                let includes: Vec<Option<&str>> = if d <= 1 { vec![None, Some("b.wxml"), Some("../i"), Some("i.wxml.wxml")] } else { vec![None] };
+                let includes: Vec<Option<&str>> = if d <= 1 { std::iter::once(None).chain(INCLUDES.iter().map(|s| Some(*s))).collect() } else { vec![None] };
                 for include in includes {
                     let scripts: Vec<Option<&str>> = if d <= 1 { std::iter::once(None).chain(SCRIPTS.iter().map(|s| Some(*s))).collect() } else { vec![None] };
                     for script in scripts {
